@@ -178,9 +178,88 @@ def check_case(R, y, mask, variant, robust, prm, rng):
         R.sample({"config": cfg, "valid_data": y[~mask][:12], "mask": mask[:24], "encodings": [r[0] for r in results], "band": ref[3][:12], "lopt": ref[4]})
 
 
+def shard_accessor(spec, R):
+    """The accessors hand the caller's placeholder to the kernels - whatever ``nodata`` attribute the cube carries
+    (none / the same value / another value / a falsy one) and whatever the placeholder is (0 is falsy, NaN-free)."""
+    import pandas as pd
+    import xarray as xr
+    import hdc.algo  # noqa
+
+    from .. import harness as H
+
+    rng = np.random.default_rng([spec["seed"], 2, 7, spec["sub"]])
+    S.warm(S.VARIANTS)
+    for it in range(spec["cases"]):
+        if R.out_of_time():
+            R.count("stopped_on_budget")
+            break
+        ny, nx, nt = int(rng.integers(1, 3)), int(rng.integers(1, 4)), int(rng.choice([6, 9, 24, 48]))
+        ys = [[S.gen_series(rng, nt) for _ in range(nx)] for _ in range(ny)]
+        allv = np.concatenate([np.ravel(v) for row in ys for v in row])
+        cands = [v for v in (0.0, -3000.0, 32767.0, -1.0, 1.0, 255.0, -32768.0) if not np.any(allv == v)]
+        nodata = cands[H.pick(it, 1, len(cands))]
+        cube = np.empty((ny, nx, nt), dtype=np.int16)
+        for a in range(ny):
+            for b in range(nx):
+                m = S.gen_mask(rng, nt, kind=["isolated", "runs", "leading", "trailing", "heavy", "allbut"][int(rng.integers(0, 6))], min_valid=None)
+                cube[a, b] = np.where(m, nodata, ys[a][b])
+        others = [v for v in (-9999.0, 0.0, -3000.0) if v != nodata]
+        attrs = [{}, {"nodata": nodata}, {"nodata": others[0]}, {"nodata": others[1]}][H.pick(it, 2, 4)]
+        R.count(f"accessor_attr_{'none' if not attrs else ('same' if attrs['nodata'] == nodata else 'other')}")
+        R.count(f"accessor_placeholder_{int(nodata)}")
+        order = [("y", "x", "time"), ("time", "y", "x")][H.pick(it, 3, 2)]
+        da = xr.DataArray(cube, dims=["y", "x", "time"], coords={"time": pd.date_range("2020-01-01", periods=nt, freq="10D")}, attrs=attrs).transpose(*order)
+        prm = gen_params(rng)
+        lcv = rng.choice([0.2, 0.8], (ny, nx))
+        variant = ACC_VARIANTS[H.pick(it, 4, len(ACC_VARIANTS))]
+        check_accessor_case(R, variant, cube, nodata, attrs, order, prm, lcv)
+
+
+ACC_VARIANTS = ["ws2dgu", "ws2dpgu", "ws2doptv", "ws2doptvp", "ws2doptvplc", "ws2dwcv", "ws2dwcvp"]
+
+
+def check_accessor_case(R, variant, cube, nodata, attrs, order, prm, lcv):
+    import pandas as pd
+    import xarray as xr
+    import hdc.algo  # noqa
+
+    ny, nx, nt = cube.shape
+    da = xr.DataArray(cube, dims=["y", "x", "time"], coords={"time": pd.date_range("2020-01-01", periods=nt, freq="10D")}, attrs=attrs).transpose(*order)
+    llas = np.asarray(prm["llas"], dtype=float)
+    calls = {
+        "ws2dgu": lambda: (da.hdc.whit.whits(nodata=nodata, s=prm["lam"]), None),
+        "ws2dpgu": lambda: (da.hdc.whit.whits(nodata=nodata, s=prm["lam"], p=prm["p"]), None),
+        "ws2doptv": lambda: da.hdc.whit.whitsvc(nodata=nodata, srange=llas),
+        "ws2doptvp": lambda: da.hdc.whit.whitsvc(nodata=nodata, srange=llas, p=prm["p"]),
+        "ws2doptvplc": lambda: da.hdc.whit.whitsvc(nodata=nodata, lc=xr.DataArray(lcv, dims=["y", "x"]), p=prm["p"]),
+        "ws2dwcv": lambda: da.hdc.whit.whitswcv(nodata=nodata, srange=llas, robust=False),
+        "ws2dwcvp": lambda: da.hdc.whit.whitswcv(nodata=nodata, srange=llas, p=prm["p"], robust=False),
+    }
+    case = {"accessor": variant, "cube": cube, "nodata": nodata, "attrs": {k: float(v) for k, v in attrs.items()}, "order": list(order), "prm": prm, "lc": lcv}
+    R.evaluation()
+    R.case(True, "acc", variant, cube, nodata, str(attrs))
+    try:
+        res = calls[variant]()
+    except Exception as e:
+        R.violation("C02:accessor-raises", f"{variant} through the accessor raises {type(e).__name__}: {str(e)[:140]} (placeholder {nodata}, attrs {attrs})", case)
+        return
+    band = res[0] if isinstance(res, tuple) else res[[k for k in res.data_vars if k != "sgrid"][0]]
+    out = band.transpose("y", "x", "time").values
+    for a in range(ny):
+        for b in range(nx):
+            p2 = dict(prm, robust=False, lc=float(lcv[a, b]))
+            eb, _ = S.call(variant, cube[a, b], nodata, p2)
+            R.count("accessor_pixels")
+            if not np.array_equal(out[a, b], np.asarray(eb)):
+                R.violation("C02:accessor-placeholder", f"{variant} through the accessor with nodata={nodata} (cube attrs {attrs}) differs from the kernel given that placeholder: pixel ({a},{b}) {out[a, b][:6].tolist()} vs {np.asarray(eb)[:6].tolist()}", case)
+                return
+
+
 def plan(tier, seed):
     q = tier == "quick"
     specs = []
+    for i in range(2 if q else 8):
+        specs.append({"kind": "accessor", "sub": i, "cases": 60 if q else 1500, "budget_s": 110 if q else 600})
     for i in range(14 if q else 32):
         specs.append({"kind": "random", "sub": i, "cases": 70 if q else 2500, "budget_s": 110 if q else 600})
     for i in range(2 if q else 8):
@@ -189,6 +268,8 @@ def plan(tier, seed):
 
 
 def run_shard(spec, R):
+    if spec["kind"] == "accessor":
+        return shard_accessor(spec, R)
     rng = np.random.default_rng([spec["seed"], 2, 1 if spec["kind"] == "random" else 2, spec["sub"]])
     S.warm(S.VARIANTS)
     for it in range(spec["cases"]):
@@ -214,7 +295,7 @@ def run_shard(spec, R):
 def finalize(agg, tier):
     c = agg["counters"]
     out = []
-    for k in ("pairs_compared", "gap_cells_checked"):
+    for k in ("pairs_compared", "gap_cells_checked", "accessor_pixels", "accessor_attr_none", "accessor_attr_same", "accessor_attr_other", "accessor_placeholder_0"):
         if c.get(k, 0) == 0:
             out.append(f"monitor {k} never evaluated")
     for variant, robust in CONFIGS:
@@ -225,6 +306,12 @@ def finalize(agg, tier):
 
 
 def replay(case, R):
+    if "accessor" in case:
+        S.warm(S.VARIANTS)
+        prm = case["prm"]
+        prm["llas"] = np.asarray(prm["llas"], dtype=float)
+        check_accessor_case(R, case["accessor"], np.asarray(case["cube"]).astype(np.int16), float(case["nodata"]), dict(case["attrs"]), tuple(case["order"]), prm, np.asarray(case["lc"], dtype=float))
+        return
     S.warm([case["variant"], "ws2dgu", "ws2dpgu"])
     rng = np.random.default_rng(0)
     prm = case["prm"]
